@@ -625,6 +625,52 @@ pub fn history_dyn(ctx: &mut Ctx, size: usize, flags: u8, start: u16, nops: usiz
     }
 }
 
+/// C04 (kind 167): `add_notify_wait_pop` while an EARLIER chain of the same queue completes first: the helper returns
+/// WrongToken; its own buffers stay shared (they are still in the available ring) until their completion is consumed,
+/// and are then unshared exactly once. ins: [class; is WrongToken; unshares during the refused call; shares during it;
+/// expected shares; result class of the later pop of the helper's chain; unshares of that pop; ledger violations]
+pub fn anwp_refused<const N: usize>(ctx: &mut Ctx, flags: u8) {
+    let (indirect, event_idx) = (flags & 1 != 0, flags & 2 != 0);
+    let mut rig = match Rig::<N>::new(ctx, indirect, event_idx, false, 0) { Some(r) => r, None => return };
+    C02.with(|c| *c.borrow_mut() = None);
+    // chain A, added directly (this scenario is evaluated by the monitor only) and completed by the device before the helper is called
+    let a_in = ctx.rng.bytes(3).into_boxed_slice(); let mut a_out = vec![0u8; 5].into_boxed_slice();
+    let ra = { let q = &mut rig.q; let i: &[u8] = &a_in; let o: &mut [u8] = &mut a_out;
+        catch_unwind(AssertUnwindSafe(move || unsafe { let ins = [i]; let mut outs = [o]; q.add(&ins, &mut outs) })) };
+    let tok_a = match ra { Ok(Ok(t)) => t, _ => return };
+    hal::dev_write_u32(rig.a.dev + 4, tok_a as u32).unwrap();
+    hal::dev_write_u32(rig.a.dev + 8, 5).unwrap();
+    rig.dev_used_idx = 1;
+    hal::dev_write_u16(rig.a.dev + 2, 1).unwrap();
+    let inb = ctx.rng.bytes(7).into_boxed_slice(); let mut outb = vec![0u8; 9].into_boxed_slice();
+    let mark = hal::log_len();
+    let r = { let q = &mut rig.q; let t = &mut rig.t; let i: &[u8] = &inb; let o: &mut [u8] = &mut outb;
+        catch_unwind(AssertUnwindSafe(move || { let ins = [i]; let mut outs = [o]; q.add_notify_wait_pop(&ins, &mut outs, t) })) };
+    let evs = hal::log_since(mark);
+    let unshares = evs.iter().filter(|e| matches!(e, Ev::Unshare { .. })).count();
+    let shares = evs.iter().filter(|e| matches!(e, Ev::Share { .. })).count();
+    let tok_b = evs.iter().find_map(|e| if let Ev::Store { what: 1, val, .. } = e { Some(*val as u16) } else { None }).unwrap_or(0xffff);
+    let (class, wrong) = match &r { Ok(Ok(_)) => (0u128, 0u128), Ok(Err(virtio_drivers::Error::WrongToken)) => (1, 1), Ok(Err(_)) => (1, 0), Err(_) => (2, 0) };
+    // consume A with its own buffers, then let the device complete the helper's chain and consume that
+    let _ = { let q = &mut rig.q; let i: &[u8] = &a_in; let o: &mut [u8] = &mut a_out;
+        catch_unwind(AssertUnwindSafe(move || unsafe { let ins = [i]; let mut outs = [o]; q.pop_used(tok_a, &ins, &mut outs) })) };
+    let slot = (rig.dev_used_idx as usize) & (N - 1);
+    hal::dev_write_u32(rig.a.dev + 4 + 8 * slot as u64, tok_b as u32).unwrap();
+    hal::dev_write_u32(rig.a.dev + 8 + 8 * slot as u64, 9).unwrap();
+    rig.dev_used_idx = rig.dev_used_idx.wrapping_add(1);
+    hal::dev_write_u16(rig.a.dev + 2, rig.dev_used_idx).unwrap();
+    let mark = hal::log_len();
+    let r2 = { let q = &mut rig.q; let i: &[u8] = &inb; let o: &mut [u8] = &mut outb;
+        catch_unwind(AssertUnwindSafe(move || unsafe { let ins = [i]; let mut outs = [o]; q.pop_used(tok_b, &ins, &mut outs) })) };
+    let evs2 = hal::log_since(mark);
+    let unshares2 = evs2.iter().filter(|e| matches!(e, Ev::Unshare { .. })).count();
+    let class2 = match &r2 { Ok(Ok(_)) => 0u128, Ok(Err(_)) => 1, Err(_) => 2 };
+    let expect_shares = if indirect { 3 } else { 2 };
+    ctx.tr.line(167, &[class, wrong, unshares as u128, shares as u128, expect_shares, class2, unshares2 as u128, hal::violations().len() as u128], &[1]);
+    ctx.tr.note("anwp_refused_by_earlier_completion");
+    ledger_line(ctx);
+}
+
 /// the standard batch of histories used by C01-C04
 pub fn standard_histories(ctx: &mut Ctx, name: &str, nhist: u64) {
     let sizes = [1usize, 2, 4, 8, 16, 32, 64, 256, 1024];
